@@ -4,7 +4,7 @@
    the finding it matches, or "NEW".  Matchers are deliberately narrow (call site + structural condition),
    so that a different violation of the same property is still reported.  bin/check only suppresses ids
    that known_findings.json lists as open. *)
-EXTENDS Integers, Sequences
+EXTENDS Integers, Sequences, Lang
 (* C09-float-intdiv-saturates: integer division with a float operand whose quotient lies outside i32 returns the
    saturated cast (i32::MAX / i32::MIN) instead of unit; pinned by the repository test
    data::number::tests::integer_division_overflow, so it cannot be repaired without editing the suite. *)
@@ -16,7 +16,34 @@ KF_C09(o, site, exp) ==
 (* C01-simple-symlist-with-number: SimpleGarnishData stores a symbol list as a vector of symbols only, so chaining a
    symbol with a number (`:a . 0`, `5 . :a`), which the runtime defines as a symbol list and BasicGarnishData
    implements, fails with "Cannot create symbol list from types" (data/src/runtime.rs merge_to_symbol_list). *)
+(* C06-else-chain-without-default: an else-chain whose last element is a conditional arm (`c1 ?> a |> c2 ?> b`) emits no
+   fall-through value: when no arm matches, the join point is reached with nothing pending (EndExpression / the next
+   operator underflows, "No references in register").  A lone conditional does emit the input value there.  The exact
+   instruction vectors of such chains are pinned by the repository tests build::jumps::triple_jump_if_*_with_else, so
+   the builder cannot be repaired without editing the suite.
+   Signatures: on the AST, an `els` node whose right child is a conditional; on an instruction stream, a conditional
+   jump whose fall-through successor is the join point that a JumpTo of the same program targets. *)
+RECURSIVE AstNoDefaultChain(_)
+AstNoDefaultChain(t) == (t.l = "els" /\ t.b[1].l \in {"cond", "condf"})
+                        \/ (t.a # <<>> /\ AstNoDefaultChain(t.a[1])) \/ (t.b # <<>> /\ AstNoDefaultChain(t.b[1]))
+InsNoDefaultChain(r) ==
+  \E i \in DOMAIN r.ins : /\ r.ins[i].op \in {"JumpIfTrue", "JumpIfFalse"}
+                           /\ \E k \in DOMAIN r.ins : r.ins[k].op = "JumpTo" /\ r.ins[k].d >= 0 /\ r.ins[k].d < Len(r.jumps) /\ r.jumps[r.ins[k].d + 1] = i
+NoDefaultChain(o, r) == IF "ast" \in DOMAIN o THEN AstNoDefaultChain(TreeOf(o.ast)) ELSE ("ins" \in DOMAIN r /\ InsNoDefaultChain(r))
+
 KF_Run(prop, why, o, r) ==
-  IF prop = "C01" /\ r.store = "simple" /\ r.status = "err" /\ "msgk" \in DOMAIN r /\ r.msgk = "Cannot create symbol list from types"
+  IF prop \in {"C01", "C06"} /\ r.status = "err" /\ "msgk" \in DOMAIN r /\ r.msgk \in {"No references in register.", "No references in register"} /\ NoDefaultChain(o, r)
+  THEN "C06-else-chain-without-default"
+  ELSE IF prop = "C01" /\ r.store = "simple" /\ r.status = "err" /\ "msgk" \in DOMAIN r /\ r.msgk = "Cannot create symbol list from types"
   THEN "C01-simple-symlist-with-number" ELSE "NEW"
+KF_Trace(prop, o, r, k) == IF prop = "C06" /\ NoDefaultChain(o, r) THEN "C06-else-chain-without-default" ELSE "NEW"
+KF_Balance(st, o, r, pc) == IF st \in {"badend", "underflow"} /\ NoDefaultChain(o, r) THEN "C06-else-chain-without-default" ELSE "NEW"
+(* C07-slice-cast-from-huge-negative-start: casting a slice whose range starts at -2147483647 to a char list iterates
+   the whole numeric range item by item (data/src/simple.rs add_to_current_char_list `for i in start..=end`, and the
+   corresponding BasicGarnishData conversion): one instruction runs for ~2^31 iterations; the worker's 25 s watchdog
+   reports it as a hang.  Not a panic, but the step does not return in useful time. *)
+KF_C07(o, r) ==
+  IF "outcome" \in DOMAIN o /\ o.outcome = "hang" /\ "input_case" \in DOMAIN o /\ "tag" \in DOMAIN o.input_case
+     /\ o.input_case.tag.k = "slice" /\ o.input_case.tag.lo = <<"--", "2147483647">> /\ o.input_case.tag.f[1] = "~#"
+  THEN "C07-slice-cast-from-huge-negative-start" ELSE "NEW"
 ==============================================================================
